@@ -162,6 +162,10 @@ mod utils;
 #[doc(hidden)]
 pub use utils::private;
 
+#[cfg(feature = "fc-verif")]
+#[doc(hidden)]
+pub use utils::verif as __verif;
+
 /// The futures concurrency prelude.
 pub mod prelude {
     pub use super::future::FutureExt as _;
